@@ -1008,6 +1008,8 @@ def run(ctx):
         have_model = False
     # ---- stage P
     ok = ctx.proofs() if have_model else False
+    okx = ctx.proofs(part="C09x") if have_model else False       # path-level theorems over the network model
+    have_net_model = have_model and (okx or coqrun.make(["model/M09_network.vo"], timeout=600)[0])
     have_model = have_model and (ok or _model_compiles())
     # ---- stage C
     rng = ctx.rng("families")
@@ -1075,6 +1077,9 @@ def run(ctx):
             ctx.broke("correspondence: node %d of a scenario disagrees with the model in instant %d (%s)" % (
                 node, code % 1000, why), {"spec": spec})
         ctx.coverage["traces_validated_against_impl"] += len(chosen) - len(mism)
+    # ---- path level: whole-network histories of teardown scenarios through coq/model/M09_network.v
+    from tools.checks import c09_path
+    c09_path.stage(ctx, have_model=have_net_model)
     ctx.coverage["rule"] = (
         "real TunnelCommunity nodes (1 originator, 3 relays, 2 exits) on a timed lossy network under a virtual clock; "
         "circuits of 1..3 hops; teardown / silent removal / link cut / node crash at every position; phases half-built "
@@ -1083,18 +1088,28 @@ def run(ctx):
         "and traffic limits; join limit; an originator ignoring its relay_early budget. Oracle at every quiescent instant "
         "(entry freshness, no open socket without table entry), at the deadline computed from the settings, after the "
         "cache time-outs%s; every node history replayed in Coq in lockstep (first %d bytes of distinct cases)" % (
-            2 if ctx.quick else 3, 48 if ctx.quick else 500, "" if ctx.quick else " and one hour later for a sample", budget))
+            2 if ctx.quick else 3, 48 if ctx.quick else 500, "" if ctx.quick else " and one hour later for a sample", budget) +
+        "; path level: teardown with a destroy or silently at the originator or at any node of the path while the originator "
+        "stays alive, a cut link, an isolated node; fault-free, every destroy lost, random loss / duplication / delay (up to "
+        "2 s); the whole network history (every delivery tied to the datagram in flight) replayed through "
+        "coq/model/M09_network.v: timeliness, identity of delivered messages, outputs, every node's tables at the quiet point "
+        "and at the deadline; hypotheses (quiet_shape_b, nrun_ok with D = latency + 2 s, all_on_time) and conclusion "
+        "(net_holds = false at T > tq + B_path) of path_bounded_reclaim_partial evaluated on every history")
     ctx.coverage["trusted_base"] = [
         "Coq 8.16.1 kernel (vm_compute)", "tools/tr/tr_reclaim.py + tr_expr.py (constants and decision rules from the source)",
         "tools/vlib/reclaim_harness.py (instrumentation, state abstraction alpha, timed lossy network), tools/vlib/vtime.py",
+        "tools/checks/c09_path.py (segments -> network trace: flight mirror, delivery matching by datagram bytes)",
         "fake transports in place of the exit sockets' OS sockets", "CPython 3.12 asyncio under the virtual clock"]
     ctx.assumptions = [
         "timely: interval tasks, sleeps and request-cache time-outs fire on time and tasks created by ensure_future run "
         "before the clock moves (evaluated on every replayed history: code 3000+k would be reported)",
         "cryptography, random identifiers and candidate selection are oracles carried by the events",
         "settings_ok: 0 <= max_time_inactive, sweep, remove_tunnel_delay; 0 < next_hop_timeout <= circuit_timeout",
-        "path-level composition (how long traffic keeps flowing after a teardown) is checked on the implementation by "
-        "the deadline oracle, not proved"]
+        "path level (path_bounded_reclaim_partial): quiet_shape_b - circuit torn down at the originator, or path broken at "
+        "position j (node without entries / dead link) with the originator last active by tq - B_entry, handshake over, "
+        "entries at their path positions; nrun_ok - no new traffic for the ids of the path, datagram life-time <= D, typed "
+        "decryption, nothing delivered on dead links (all evaluated on the replayed histories); distinct nodes and ids on "
+        "the path; not covered: half-built circuits, nodes that stop being served (list at the end of coq/props/C09_path.v)"]
 
 
 def _model_compiles():
@@ -1118,6 +1133,10 @@ def replay(path):
     for v in items:
         spec = (v.get("case") or {}).get("spec")
         if not spec:
+            continue
+        if str(v.get("key", "")).startswith("path-"):
+            from tools.checks import c09_path
+            rc |= c09_path.replay_spec(spec)
             continue
         r = run_scenario(_tuplify(spec), want_cases=False)
         print("spec:", json.dumps(spec, default=str))
